@@ -8,7 +8,8 @@ import "pgregory.net/rapid"
 func GenLooseReg(t *rapid.T, id int, hostile bool) Reg {
 	types := []int{0, 1, NumD, NumD + 1} // D0 D1 N0 N1
 	keys := []string{"", "", "a"}
-	groups := []string{"", "", "g"}
+	groups := []string{"", "", "g", "h"}
+	group := func() string { return rapid.SampledFrom([]string{"g", "g", "h"}).Draw(t, "group") } // one element type occurs in two groups
 	r := Reg{ID: id, Life: rapid.IntRange(0, 2).Draw(t, "life")}
 	r.Form = rapid.SampledFrom([]int{FormPlain, FormPlain, FormPlain, FormMulti, FormOut, FormInstance, FormVoid}).Draw(t, "form")
 	pick := func() int { return rapid.SampledFrom(types).Draw(t, "type") }
@@ -20,7 +21,7 @@ func GenLooseReg(t *rapid.T, id int, hostile bool) Reg {
 		case 0:
 			r.Name = "a"
 		case 1:
-			r.Group = "g"
+			r.Group = group()
 		case 2:
 			r.As = []int{rapid.SampledFrom([]int{TI0, TI1}).Draw(t, "as")}
 			if rapid.Bool().Draw(t, "as2") {
@@ -39,7 +40,7 @@ func GenLooseReg(t *rapid.T, id int, hostile bool) Reg {
 			r.Outs = append(r.Outs, OutSpec{T: ty, Impl: ty})
 		}
 		if rapid.IntRange(0, 3).Draw(t, "mgroup") == 0 {
-			r.Group = "g"
+			r.Group = group()
 		}
 	case FormOut:
 		n := rapid.IntRange(1, 3).Draw(t, "nfields")
@@ -72,7 +73,7 @@ func GenLooseReg(t *rapid.T, id int, hostile bool) Reg {
 			case 0:
 				d.Key = "a"
 			case 1:
-				d.Group = "g"
+				d.Group = group()
 			case 2:
 				d.Optional = true
 			}
